@@ -29,7 +29,7 @@ PROPS = {
     "C03": dict(
         title="Offset, DST flag and abbreviation for an instant match the TZ data",
         verus=["tzif", "posix", ("posix", "_static", STATIC)],
-        kani_quick=[], kani_thorough=[],
+        kani_quick=["c17_tzif"], kani_thorough=[],
         design_ref="DESIGN.md section 4, C03",
     ),
     "C04": dict(
@@ -72,7 +72,7 @@ PROPS = {
         title="All ways of loading a time zone give the same zone",
         verus=["posix", ("posix", "_static", STATIC)],
         all_fns=True,
-        kani_quick=[], kani_thorough=[],
+        kani_quick=["c17_tzif"], kani_thorough=[],
         design_ref="DESIGN.md section 4, C18",
         level_text="Narrow claim: the two copies of the shared time-zone core (src/shared/** used by jiff and the generated crates/jiff-static/src/shared/** used by the static-zone macros) each satisfy the SAME functional contracts (result == spec(args)) for the calendar core and the POSIX rule evaluation, hence agree with each other on every input; a drift in either copy fails a named obligation. Database back-ends, proc-macro expansion and slim/fat zic output are not covered (DESIGN.md section 4, C18).",
     ),
